@@ -219,7 +219,9 @@ func c03Drive(b *Bed, listener string, qs []*c03Query, wait time.Duration) {
 			}
 			for qi, q := range part {
 				q.Batch = part
-				if qi%3 == 1 {
+				if qi%3 == 1 && qi >= 20 {
+					// (the first twenty frames of a connection go out back to back and reach the listener as
+					// one or two large reads; from then on ...)
 					// the last one or two octets of this frame travel in a segment of their own
 					f := dnsclient.Frame(q.Wire)
 					cut := len(f) - 1 - qi%2
